@@ -7,7 +7,7 @@ from rustlex import *
 GEN_FILE = "Router.lean"
 
 COLL = {"inner": "exact", "registries": "registries", "structs": "structs"}
-DECODERS = [(r"serde_json::from_slice\(", "serdeJson"), (r"beve_from_slice\(", "beve"),
+DECODERS = [(r"serde_json::from_slice(?:::<\w+>)?\(", "serdeJson"), (r"beve_from_slice\(", "beve"),
             (r"(?:beve::read_typed_slice|read_typed_slice_body)\(", "typedSlice"), (r"decode_typed_slice_ref_body::<T>\(", "typedSliceRef")]
 
 
@@ -20,8 +20,11 @@ def body_format_codes(consts):
 
 
 def gate(src, fn, codes):
+    return gate_body(fn_body(src, fn), fn, codes)
+
+
+def gate_body(b, fn, codes):
     """The `match BodyFormat::try_from(..) { Ok(BodyFormat::A) | Ok(BodyFormat::B) => <decoder>, …, _ => <reject> }` of one decoder."""
-    b = fn_body(src, fn)
     m = re.search(r"match BodyFormat::try_from\([^)]*\)\s*\{", b)
     if not m: raise ExtractError(f"{fn}: match on BodyFormat::try_from not found")
     i = b.find("{", m.end() - 1)
@@ -42,7 +45,8 @@ def gate(src, fn, codes):
     for arm in arms:
         pat, rhs = arm.split("=>", 1)
         pat = pat.strip()
-        if pat == "_":
+        if pat == "_" or re.search(r"\bErr\(_\)", pat):
+            if pat != "_" and re.sub(r"Ok\(BodyFormat::\w+\)|Err\(_\)|\||\s", "", pat): raise ExtractError(f"{fn}: unrecognised arm pattern `{pat}`")
             seen_default = True
             if "InvalidBody" not in rhs and "on_bad_format" not in rhs: raise ExtractError(f"{fn}: default arm is not the InvalidBody rejection: {rhs[:60]}")
             continue
@@ -115,11 +119,29 @@ def extract():
     for key, fn, arg in (("sliceRefOwned", "handle", r"req\.header\.body_format, &req\.body"), ("sliceRefView", "handle_view", r"view\.header\.body_format, view\.body")):
         if not re.search(r"decode_typed_slice_ref_param::<T>\(" + arg, fn_body(imp, fn)): raise ExtractError(f"TypedSliceRefHandler::{fn}: gate call not recognised")
         f[key] = ref
+    # ---- inline gates of the struct mount and of the JsonTypedHandler adapter
+    sh = fn_body(impl_block(src, r"impl<T, L> HandlerErased for RegisteredStruct<T, L>"), "handle")
+    f["structGate"] = gate_body(sh, "RegisteredStruct::handle", codes)
+    f["structEmptyBodyIsRead"] = re.search(r"let body = if req\.body\.is_empty\(\)\s*\{\s*None\s*\}\s*else\s*\{", sh) is not None
+    f["adapterGate"] = gate_body(fn_body(impl_block(src, r"impl<H: JsonTypedHandler> HandlerErased for JsonTypedAdapter<H>"), "handle"), "JsonTypedAdapter::handle", codes)
     # ---- wrappers
     pipe = impl_block(src, r"impl HandlerErased for MiddlewarePipeline\s*\{")
     f["pipelineExecForwards"] = re.fullmatch(r"\s*self\.handler\.execution\(\)\s*", fn_body(pipe, "execution")) is not None
     f["pipelineViewDefault"] = "handle_view" not in overrides(src, r"impl HandlerErased for MiddlewarePipeline\s*\{")
     f["offReaderViewDefault"] = "handle_view" not in overrides(src, r"impl<H: HandlerErased> HandlerErased for OffReaderHandler<H>\s*\{")
+    # ---- Next::run: every Next handed to a middleware keeps the context; the leaf gets it
+    nx = fn_body(impl_block(src, r"impl<'a> Next<'a>\s*\{"), "run")
+    lits = [m.start() for m in re.finditer(r"\bNext\s*\{", nx)]
+    calls = re.findall(r"\b(?:Next|Self)::(?:new|with_ctx)\(|\bSelf\s*\{", nx)
+    if not lits and not calls: raise ExtractError("Next::run: no construction of the inner Next recognised")
+    good = bool(lits) and not calls
+    for i in lits:
+        j = nx.find("{", i)
+        lit = " ".join(nx[j + 1:match_brace(nx, j) - 1].split())
+        if not re.fullmatch(r"middlewares: rest, handler: self\.handler, ctx: self\.ctx,?", lit): good = False
+    if not re.search(r"Some\(ctx\) => self\.handler\.handle_with_ctx\(req, ctx\)", nx) or not re.search(r"None => self\.handler\.handle\(req\)", nx): good = False
+    if not re.search(r"self\.middlewares\.split_first\(\)", nx): good = False
+    f["nextForwardsCtx"] = good
     # the trait default itself
     tr = impl_block(src, r"pub trait HandlerErased\s*:\s*Send \+ Sync\s*\{")
     if not re.fullmatch(r"\s*self\.handle_with_ctx\(&view\.to_message\(\), ctx\)\s*", fn_body(tr, "handle_view")): raise ExtractError("HandlerErased::handle_view default not recognised")
@@ -144,7 +166,11 @@ def render(f):
     L.append("  { " + ",\n    ".join(f"{k} := {gate_s(f[k])}" for k in keys) + ",")
     L.append(f"    pipelineExecForwards := {b(f['pipelineExecForwards'])},")
     L.append(f"    pipelineViewDefault := {b(f['pipelineViewDefault'])},")
-    L.append(f"    offReaderViewDefault := {b(f['offReaderViewDefault'])} }}")
+    L.append(f"    offReaderViewDefault := {b(f['offReaderViewDefault'])},")
+    L.append(f"    nextForwardsCtx := {b(f['nextForwardsCtx'])},")
+    L.append(f"    structGate := {gate_s(f['structGate'])},")
+    L.append(f"    structEmptyBodyIsRead := {b(f['structEmptyBodyIsRead'])},")
+    L.append(f"    adapterGate := {gate_s(f['adapterGate'])} }}")
     L.append("end Repe.Gen")
     return "\n".join(L) + "\n"
 
